@@ -106,6 +106,13 @@ def mk(kind, *args):
     return Poly.const(math.isqrt(ints[0]))
   if kind in ("gcd", "band", "bor", "bxor"):
     a = sorted(a, key=repr)
+  if kind == "reversed" and len(a) == 1 and isinstance(a[0], Poly) and a[0].as_atom() is not None and a[0].as_atom().kind == "range":
+    ra = a[0].as_atom().args
+    one = Poly.const(1)
+    if len(ra) == 1:
+      return Poly.atom(Atom("range", ra[0] - 1, Poly.const(-1), Poly.const(-1)))      # reversed(range(n)) = range(n-1, -1, -1)
+    if len(ra) == 2 or (len(ra) == 3 and ra[2] == one):
+      return Poly.atom(Atom("range", ra[1] - 1, ra[0] - 1, Poly.const(-1)))
   if kind == "idx":
     base = a[0].as_atom() if isinstance(a[0], Poly) else None
     if base is not None and base.kind == "seq" and ints[1] is not None and -len(base.args) <= ints[1] < len(base.args):
@@ -1097,6 +1104,36 @@ class Walker:
       if all(repr(c) == repr(cands[0][0]) for c, _ in cands) and not _mentions_loop_syms(cands[0][0], h, st):
         after.env[v] = cands[0][0]
         continue
+    # append-loop summary: `L = []; for t in it: L.append(f(t))` (one unconditional append per pass, no break, f independent of loop-carried
+    # state) is the comprehension [f(t) for t in it]
+    if is_for and not exits and ends and not isinstance(itv, Seq):
+      ka = as_poly(k).as_atom()
+      henv = visit["head"].env          # the head state proper (h itself has been advanced by the body)
+      for v in mod:
+        pre_v = st.env.get(v)
+        if not (isinstance(pre_v, Seq) and not pre_v.items and pre_v.kind == "list") or v not in henv or isinstance(henv[v], (Seq, Const, tuple)):
+          continue
+        hv = as_poly(henv[v])
+        elts = []
+        for s2 in ends:
+          cur = s2.env.get(v)
+          a = cur.as_atom() if isinstance(cur, Poly) else None
+          if a is None or a.kind != "mut" or len(a.args) != 4 or a.args[0] != hv or a.args[1] != P("lit", "append"):
+            elts = None
+            break
+          elts.append(a.args[2])
+        if not elts or any(repr(x) != repr(elts[0]) for x in elts):
+          continue
+        elt = elts[0]
+        carried = set()
+        for v2 in mod:
+          hv2 = henv.get(v2)
+          if isinstance(hv2, Poly) and hv2.as_atom() is not None and hv2.as_atom().kind == "sym" and hv2.as_atom() != ka:
+            carried.add(hv2.as_atom())
+        if ka is None or any(x in carried for x in elt.all_atoms()):
+          continue
+        bv = Atom("bv", "b%d" % next(self.fresh))
+        after.env[v] = Poly.atom(Atom("map", rebuild(elt.deep_subst(ka, Poly.atom(bv))), bv, as_poly(itv)))
     for v, t in thyps.items():
       if v not in hyps and isinstance(after.env.get(v), Poly) and after.env[v].as_atom() is not None:
         after.facts.append(("truthy" if t else "falsy", after.env[v]))
